@@ -1,0 +1,87 @@
+//go:build verif
+
+package yoda
+
+import (
+	"time"
+
+	rpcclient "github.com/cometbft/cometbft/rpc/client"
+
+	"cosmossdk.io/log"
+
+	"github.com/cosmos/cosmos-sdk/crypto/hd"
+	"github.com/cosmos/cosmos-sdk/crypto/keyring"
+	sdk "github.com/cosmos/cosmos-sdk/types"
+
+	band "github.com/bandprotocol/chain/v3/app"
+	"github.com/bandprotocol/chain/v3/pkg/filecache"
+	"github.com/bandprotocol/chain/v3/x/oracle/types"
+	"github.com/bandprotocol/chain/v3/yoda/executor"
+)
+
+// This file is compiled only with the `verif` build tag. It lets the verification harness build a yoda
+// Context with an injected RPC client, executor and in-memory keyring, and call handleRequest directly.
+
+// VerifContext wraps a Context built for verification.
+type VerifContext struct {
+	c *Context
+	l *Logger
+}
+
+// NewVerifContext builds a Context for `validator` with `nKeys` fresh in-memory reporter keys.
+func NewVerifContext(
+	app *band.BandApp,
+	client rpcclient.Client,
+	chainID string,
+	validator sdk.ValAddress,
+	nKeys int,
+	exec executor.Executor,
+	cacheDir string,
+	maxTry uint64,
+) (*VerifContext, error) {
+	cfg.ChainID = chainID
+	kb = keyring.NewInMemory(app.AppCodec())
+	for i := 0; i < nKeys; i++ {
+		if _, _, err := kb.NewMnemonic(
+			"reporter"+string(rune('a'+i)), keyring.English, sdk.FullFundraiserPath, "", hd.Secp256k1,
+		); err != nil {
+			return nil, err
+		}
+	}
+	keys, err := kb.List()
+	if err != nil {
+		return nil, err
+	}
+	c := &Context{
+		bandApp:            app,
+		client:             client,
+		validator:          validator,
+		keys:               keys,
+		executor:           exec,
+		fileCache:          filecache.New(cacheDir),
+		maxTry:             maxTry,
+		rpcPollInterval:    time.Millisecond,
+		pendingMsgs:        make(chan ReportMsgWithKey, 1024),
+		freeKeys:           make(chan int64, len(keys)),
+		keyRoundRobinIndex: -1,
+		pendingRequests:    map[types.RequestID]bool{},
+	}
+	return &VerifContext{c: c, l: &Logger{logger: log.NewNopLogger()}}, nil
+}
+
+// HandleRequest runs yoda's handleRequest for the given request id (synchronously, as the goroutine
+// spawned by handleTransaction would).
+func (v *VerifContext) HandleRequest(id types.RequestID) { handleRequest(v.c, v.l, id) }
+
+// PendingReports drains the queue of reports waiting for submission without blocking.
+func (v *VerifContext) PendingReports() []*types.MsgReportData {
+	var out []*types.MsgReportData
+	for {
+		select {
+		case m := <-v.c.pendingMsgs:
+			out = append(out, m.msg)
+		default:
+			return out
+		}
+	}
+}
